@@ -146,14 +146,14 @@ func (s *Service) onFindNode(ctx context.Context, peer p2p.Peer, stream p2p.Stre
 	target := boson.NewAddress(req.Target)
 	skip := []boson.Address{peer.Address}
 
-	var (
-		limitConn  = 1
-		limitKnown = 1
-	)
-	if req.Limit > 2 {
-		limitKnown = int(req.Limit / 2)
-		limitConn = int(req.Limit) - limitKnown
+	// split the requested number between connected and known peers; together
+	// they never exceed it (a request for one peer gets one, for none gets none)
+	limit := int(req.Limit)
+	if limit < 0 {
+		limit = 0
 	}
+	limitKnown := limit / 2
+	limitConn := limit - limitKnown
 
 	addrFunc := func(address boson.Address, u uint8) (stop, jumpToNext bool, err error) {
 		if address.MemberOf(skip) {
